@@ -363,6 +363,13 @@ func (r *Runner) NewReader(start int) {
 // StepReader performs one Read; it returns false when the reader is quiescent.
 func (r *Runner) StepReader(rd *Reader) bool {
 	s := r.S
+	// Outside the premise of reader_converges (the position is a proper descendant of the best block, which the node's
+	// fork choice never allows) the reader's behaviour is not specified by the property: such reads are not issued.
+	if pi, ok := s.ByID[rd.pos]; ok && pi != s.Best && s.OnChain(pi, s.Best) {
+		r.Cov.Count("reader:below-best(outside-premise,skipped)")
+		rd.lost = true
+		return false
+	}
 	blocks, err := rd.read()
 	line := "READ " + N32(rd.pos)
 	// failures of the subscription-level readers get their own classes (same stream, different code on top)
@@ -372,15 +379,6 @@ func (r *Runner) StepReader(rd *Reader) bool {
 	}
 	if err != nil {
 		r.T.add(line, r.classify2(err))
-		// The only error the repository model predicts: the position is a proper descendant of the best block
-		// (Read walks back to best, then asks for best+1).  The node never stores such a block without making it
-		// best (a child of best has a larger total score); the repository API allows it, so it is exercised for the
-		// correspondence but it is outside the premise of reader_converges.
-		if pi, ok := s.ByID[rd.pos]; ok && pi != s.Best && s.OnChain(pi, s.Best) {
-			r.Cov.Count("reader:below-best-error(outside-premise)")
-			rd.lost = true
-			return false
-		}
 		r.T.fail("reader-error", fmt.Sprintf("BlockReader.Read from a known block failed: %v", err))
 		rd.lost = true
 		return false
